@@ -73,7 +73,7 @@ def main():
         sh("git checkout -- .", cwd="/repo")
     res["checks"] = checks
     res["detected_by_own_property_check"] = checks[pid]["exit"] == 1
-    dst = f"/verif/seeded/{pid}-{k}"
+    dst = f"/verif/seeded/{pid}-{int(k) + int(os.environ.get('SEED_OFFSET', '0'))}"
     os.makedirs(dst, exist_ok=True)
     shutil.copy(patch, f"{dst}/patch.diff")
     shutil.copy(f"{wt}/SEED/demo{k}.rs", f"{dst}/demo.rs")
